@@ -2897,7 +2897,11 @@ class Transport(threading.Thread, ClosingContextManager):
         # Packet is a count followed by that many key-string to possibly-bytes
         # pairs.
         extensions = {}
-        for _ in range(msg.get_int()):
+        count = msg.get_int()
+        # every entry is two strings, ie at least 8 bytes
+        if count > len(msg.get_remainder()) // 8:
+            raise SSHException("EXT_INFO announces more entries than it has")
+        for _ in range(count):
             name = msg.get_text()
             value = msg.get_string()
             extensions[name] = value
